@@ -2,7 +2,7 @@
    elementwise operations (arithmetic, comparison, unary) in all option modes.
    Elements are small integers, on which every modelled scalar operation is exact in every
    numeric element type; element-type specific arithmetic is the subject of C17. *)
-From TV Require Import Base Index AP Iter Mem Spec Guards Run Ops.
+From TV Require Import Base Index AP Iter Mem Spec Guards Run Ops Reduce.
 
 (* scalar operations by code *)
 Definition zbin (code : Z) (x y : Z) : cres Z :=
@@ -37,7 +37,18 @@ Inductive zop :=
 | ZBinS (code : Z) (t : nat) (s : Z) (lft : bool) (m : mode)
 | ZCmp (code : Z) (a b : nat) (same : bool) (m : cmode) (api : bool)
 | ZCmpS (code : Z) (t : nat) (s : Z) (lft same : bool) (m : cmode)
-| ZUn (code : Z) (a : nat) (m : mode).
+| ZUn (code : Z) (a : nat) (m : mode)
+| ZReduce (code : Z) (a : nat) (axes : list Z) (refused : bool)     (* 0 sum, 1 min, 2 max *)
+| ZArg (code : Z) (a : nat) (axis : Z) (refused : bool).            (* 0 argmax, 1 argmin; axis -1 = all *)
+
+Definition zred (code : Z) : Z -> Z -> Z :=
+  if code =? 0 then Z.add else if code =? 1 then Z.min else Z.max.
+Definition zbetter (code : Z) (v f : Z) : bool := if code =? 0 then v >? f else v <? f.
+
+(* a reduction result becomes a fresh row-major tensor *)
+Definition new_result (σ : store Z) (sh : list Z) (data : list Z) : store Z * nat :=
+  let '(σ1, b) := add_buf Z σ data in
+  add_t Z σ1 (mkDense b 0 (zlen data) (mkAP sh (calc_strides sh) 0 true) None false).
 
 Definition of_oresult (σ0 : store Z) (r : store Z * oresult) : store Z * outcome Z :=
   match r with
@@ -62,7 +73,23 @@ Definition zstep_model (σ : store Z) (o : zop) : store Z * outcome Z :=
     else of_oresult σ (eng_cmp_vv Z 0 Z.add (zcmp code) σ a b same m)
   | ZCmpS code t s lft same m => of_oresult σ (eng_cmp_scalar Z 0 Z.add (zcmp code) σ t s lft same m)
   | ZUn code a m => of_oresult σ (eng_unary Z 0 Z.add (zun code) σ a m)
+  | ZReduce code a axes _ =>
+    match fst (m_reduce Z 0 (zred code) (code =? 0) σ a axes) with
+    | Ok (sh, data) => let '(σ', t) := new_result σ sh data in (σ', RNew Z t)
+    | Err => (σ, RErr Z)
+    | Panic => (σ, RPanic Z)
+    end
+  | ZArg code a axis _ =>
+    match m_argbest Z (zbetter code) σ a axis with
+    | Ok (sh, data) => let '(σ', t) := new_result σ sh data in (σ', RNew Z t)
+    | Err => (σ, RErr Z)
+    | Panic => (σ, RPanic Z)
+    end
   end.
+
+(* what reduce() leaves in the caller's axes slice *)
+Definition zreduce_axes_after (σ : store Z) (code : Z) (a : nat) (axes : list Z) : list Z :=
+  snd (m_reduce Z 0 (zred code) (code =? 0) σ a axes).
 
 (* SPEC: coordinate-wise on logical contents, delivered according to the option mode.
    None = not determined by the property (e.g. an integer zero divisor). *)
@@ -127,6 +154,35 @@ Definition zstep_spec (ς : sstate Z) (o : zop) : option (sstate Z * outcome Z) 
       spec_vals_deliver ς a (s_shape x) (map (fun v => Some (zun code v)) (slogical Z 0 ς x)) (mode_code m) (s_cm x)
     | None => None
     end
+  | ZReduce code a axes refused =>
+    match sget Z ς a with
+    | None => None
+    | Some x =>
+      let dims := zlen (s_shape x) in
+      let axes' := match axes with [] => zseq 0 (Z.to_nat dims) | _ => axes end in
+      (* only genuine sets of axes of the tensor are covered by the property *)
+      if negb (forallb (fun i => (0 <=? i) && (i <? dims)) axes') || negb (nodup_z axes') then None
+      (* an unsupported layout may be refused (which layouts the library supports is its own
+         business; that it refuses the same ones as the MODEL is checked by the correspondence) *)
+      else if refused then Some (ς, RErr Z)
+      else
+        let '(sh, vs) := spec_reduce_vals Z 0 (zred code) (code =? 0) ς x axes' in
+        spec_vals_deliver ς a sh vs (0, O) false
+    end
+  | ZArg code a axis refused =>
+    match sget Z ς a with
+    | None => None
+    | Some x =>
+      let dims := zlen (s_shape x) in
+      if refused then Some (ς, RErr Z)
+      else if axis =? -1 then
+        let flat := mkSten [size (s_shape x)] (s_cells x) None 0 false false in
+        spec_vals_deliver ς a [] [Some (nth 0 (snd (spec_arg_vals Z 0 (zbetter code) ς flat 0)) 0)] (0, O) false
+      else if negb ((0 <=? axis) && (axis <? dims)) then None
+      else
+        let '(sh, vs) := spec_arg_vals Z 0 (zbetter code) ς x axis in
+        spec_vals_deliver ς a sh (map (fun v => Some v) vs) (0, O) false
+    end
   end.
 
 Definition zguard (σ : store Z) (o : zop) : gclass :=
@@ -162,4 +218,29 @@ Definition zguard (σ : store Z) (o : zop) : gclass :=
     | g => g
     end
   | ZUn _ a m => guard_elementwise (tens [a]) (dst_of m) (rsize [a]) (rshape [a])
+  | ZReduce _ a axes _ =>
+    match tens [a] with
+    | d :: _ =>
+      match guard_read d with
+      | GOk =>
+        if is_cm (ord (d_ap d)) then GOrderMix
+        else if negb (is_materializable d) && negb (d_len d =? size (shp (d_ap d))) then GFlagUnsound
+        else if uses_bad_default (sort_z axes) 0 (shp (d_ap d)) then GReduceDefault
+        else GOk
+      | g => g
+      end
+    | [] => GOther
+    end
+  | ZArg _ a _ _ =>
+    match tens [a] with
+    | d :: _ => match guard_read d with
+                | GOk => if is_cm (ord (d_ap d)) then GOrderMix
+                         else match o with
+                              | ZArg _ _ axis _ =>
+                                if (axis =? -1) && (is_materializable d || negb (list_eqb (str (d_ap d)) (calc_strides (shp (d_ap d)))))
+                                then GFlatRawWindow else GOk
+                              | _ => GOk end
+                | g => g end
+    | [] => GOther
+    end
   end.
